@@ -57,6 +57,9 @@ func Schema(r *rand.Rand, o SchemaOpts) any {
 	if !o.NoStress && r.IntN(12) == 0 {
 		StressSchema(r, doc, o.Draft)
 	}
+	if !o.NoStress && r.IntN(10) == 0 {
+		ForeignKeywords(r, doc, o.Draft, o.Names)
+	}
 	return doc
 }
 
